@@ -105,6 +105,10 @@ func main() {
 		measureMain(os.Args[2], os.Args[3])
 		return
 	}
+	if len(os.Args) == 4 && os.Args[1] == "rerun" {
+		rerun(os.Args[2], os.Args[3])
+		return
+	}
 	if len(os.Args) < 3 || os.Args[1] != "gen" {
 		fmt.Fprintln(os.Stderr, "usage: vh gen <family> -o file [-seed N] [-tier quick|thorough]")
 		var names []string
